@@ -59,6 +59,7 @@ func (p *P0x9212) Parse(jtMsg *jt808.JTMessage) error {
 	if len(body) != 4+l+8*int(p.RetransmitPacketNumber) {
 		return protocol.ErrBodyLengthInconsistency
 	}
+	p.P0x9212RetransmitPacketList = nil // 复用同一个对象解析时 不能保留上一次的列表
 	for i := 0; i < int(p.RetransmitPacketNumber); i++ {
 		p.P0x9212RetransmitPacketList = append(p.P0x9212RetransmitPacketList, P0x9212RetransmitPacket{
 			DataOffset: binary.BigEndian.Uint32(body[4+l+8*i:]),
